@@ -1,5 +1,152 @@
 import ZoektModel.Basic.Proto
+import ZoektModel.C23.Spec
 namespace ZoektModel.C23
-/-- stub: no model driver for C23 yet -/
-def main : IO Unit := ZoektModel.Proto.runLines (fun _ => ZoektModel.Proto.badCase "no model driver for C23")
+open ZoektModel ZoektModel.Proto
+
+def untok (s : String) : String := if s == "~" then "" else s
+def tok (s : String) : String := if s == "" then "~" else s
+
+def parseCtx (s : String) : Option Ctx :=
+  if s == "sys" then some .system
+  else if s == "none" then some .none
+  else if s.startsWith "t" then (s.drop 1).toString.toInt?.map .tenant
+  else none
+
+def parseSubs (s : String) : Option (List SubRepo) :=
+  if s == "-" then some [] else
+  (s.splitOn ",").mapM fun e =>
+    match e.splitOn "|" with
+    | [n, u, f] => some ⟨untok n, untok u, untok f⟩
+    | _ => none
+
+def parseRepos (s : String) : Option (List Repo) :=
+  if s == "-" then some [] else
+  (s.splitOn ";").mapM fun e =>
+    match e.splitOn ":" with
+    | [t, id, n, tomb, u, f, subs] => do
+      pure ⟨← t.toInt?, ← id.toNat?, untok n, ← bool? tomb, untok u, untok f, ← parseSubs subs⟩
+    | _ => none
+
+def parseDocs (s : String) : Option (List Doc) :=
+  if s == "-" then some [] else
+  (s.splitOn ";").mapM fun e =>
+    match e.splitOn ":" with
+    | [r, n, ft, c] => do pure ⟨← r.toNat?, untok n, ← bool? ft, ← c.toNat?⟩
+    | _ => none
+
+def wfShard (sh : Shard) : Bool := sh.docs.all fun d => decide (d.repo < sh.repos.length)
+
+def showPairs (l : List (String × String)) : String := showList (fun p => tok p.1 ++ "=" ++ tok p.2) l
+
+def renderSearch (o : ObsSearch) : String :=
+  "files=" ++ showList (fun f => s!"{tok f.1}:{f.2.1}:{tok f.2.2}") o.files ++
+  " urls=" ++ showPairs o.urls ++ " frags=" ++ showPairs o.frags
+
+def renderList (o : ObsList) (nrepos ndocs : Nat) : String :=
+  "repos=" ++ showList (fun e => s!"{tok e.1}:{e.2}") o.repos ++ " map=" ++ showNatList o.mapIds ++
+  s!" nrepos={nrepos} ndocs={ndocs}"
+
+def parsePairs (s : String) : Option (List (String × String)) :=
+  if s == "-" then some [] else
+  (s.splitOn ",").mapM fun e =>
+    match e.splitOn "=" with
+    | [k, v] => some (untok k, untok v)
+    | _ => none
+
+def parseObsSearch (s : String) : Option ObsSearch :=
+  match fields s with
+  | [a, b, c] =>
+    if a.startsWith "files=" && b.startsWith "urls=" && c.startsWith "frags=" then do
+      let fs := (a.drop 6).toString
+      let files ← if fs == "-" then some [] else
+        (fs.splitOn ",").mapM fun e =>
+          match e.splitOn ":" with
+          | [n, id, f] => do pure (untok n, ← id.toNat?, untok f)
+          | _ => none
+      pure ⟨files, ← parsePairs (b.drop 5).toString, ← parsePairs (c.drop 6).toString⟩
+    else none
+  | _ => none
+
+def parseObsList (s : String) : Option ObsList :=
+  match fields s with
+  | [a, b, _, _] =>
+    if a.startsWith "repos=" && b.startsWith "map=" then do
+      let rs := (a.drop 6).toString
+      let repos ← if rs == "-" then some [] else
+        (rs.splitOn ",").mapM fun e =>
+          match e.splitOn ":" with
+          | [n, id] => do pure (untok n, ← id.toNat?)
+          | _ => none
+      pure ⟨repos, ← natList? (b.drop 4).toString⟩
+    else none
+  | _ => none
+
+def parseMode (s : String) : Option ListMode :=
+  if s == "false" then some .constFalse else if s == "true" then some .constTrue
+  else if s == "other" then some .viaSearch else none
+
+def handle (line : String) : String :=
+  let (inp, impl) := splitCase line
+  match fields inp with
+  | ["access", mode, c, tid] =>
+    match parseCtx c, tid.toInt? with
+    | some c, some tid =>
+      let strict := mode == "strict"
+      let m := hasAccess strict c tid
+      -- spec: in strict mode the implementation's answer must be the statement's rule
+      match bool? impl with
+      | none => badCase "impl output"
+      | some got => if strict && got != mayAccess c tid then specFail (showBool m) "hasaccess" else answer (showBool m)
+    | _, _ => badCase "fields"
+  | ["search", strict, c, early, maxRepo, repos, docs] =>
+    match bool? strict, parseCtx c, bool? early, maxRepo.toNat?, parseRepos repos, parseDocs docs with
+    | some strict, some c, some early, some maxRepo, some repos, some docs =>
+      let sh : Shard := ⟨repos, docs⟩
+      if !wfShard sh then badCase "document of unknown repository" else
+      let acc := hasAccess strict c
+      let model := renderSearch (observeSearch (search acc sh early maxRepo))
+      match parseObsSearch impl with
+      | none => badCase "impl output"
+      | some o =>
+        -- the property is about strict mode; it is evaluated with the statement's own access rule
+        if strict && !(checkSearch (mayAccess c) sh o) then specFail model "search-shows-inaccessible-repository"
+        else answer model
+    | _, _, _, _, _, _ => badCase "fields"
+  | ["list", strict, c, mode, early, field, repos, docs] =>
+    match bool? strict, parseCtx c, parseMode mode, bool? early, parseRepos repos, parseDocs docs with
+    | some strict, some c, some mode, some early, some repos, some docs =>
+      let sh : Shard := ⟨repos, docs⟩
+      if !wfShard sh then badCase "document of unknown repository" else
+      if field != "repos" && field != "map" then badCase "field" else
+      let acc := hasAccess strict c
+      let out := list acc sh mode early (if field == "map" then .reposMap else .repos)
+      let obs := observeList sh out
+      let model := renderList obs (obs.repos.length + obs.mapIds.length) out.docs
+      match parseObsList impl with
+      | none => badCase "impl output"
+      | some o =>
+        if strict && !(checkList (mayAccess c) sh o) then specFail model "list-shows-inaccessible-repository"
+        else answer model
+    | _, _, _, _, _, _ => badCase "fields"
+  | ["trsearch", strict, c, mode, early, repos, docsChild, docsRest] =>
+    match bool? strict, parseCtx c, parseMode mode, bool? early, parseRepos repos, parseDocs docsChild, parseDocs docsRest with
+    | some strict, some c, some mode, some early, some repos, some dc, some dr =>
+      let shC : Shard := ⟨repos, dc⟩
+      let shR : Shard := ⟨repos, dr⟩
+      if !wfShard shC || !wfShard shR then badCase "document of unknown repository" else
+      let acc := hasAccess strict c
+      let o := observeSearch (typeRepoSearch acc shC shR mode early)
+      let model := "files=" ++ showList (fun f => s!"{tok f.1}:{f.2.1}:{tok f.2.2}") o.files
+      match (fields impl) with
+      | [a] =>
+        match parseObsSearch (a ++ " urls=- frags=-") with
+        | none => badCase "impl output"
+        | some io =>
+          if strict && !(checkSearch (mayAccess c) shR io) then specFail model "typerepo-search-shows-inaccessible-repository"
+          else answer model
+      | _ => badCase "impl output"
+    | _, _, _, _, _, _, _ => badCase "fields"
+  | _ => badCase "op"
+
+def main : IO Unit := runLines handle
 end ZoektModel.C23
